@@ -24,6 +24,8 @@ import (
 	"github.com/named-data/ndnd/std/ndn"
 	mgmt "github.com/named-data/ndnd/std/ndn/mgmt_2022"
 	spec "github.com/named-data/ndnd/std/ndn/spec_2022"
+	svs "github.com/named-data/ndnd/std/ndn/svs_2024"
+	"github.com/named-data/ndnd/std/utils"
 )
 
 func init() { ndnlog.SetLevel(ndnlog.FatalLevel) } // log text is not an observable
@@ -251,22 +253,42 @@ func (s *Sim) IdxOfName(n enc.Name) int {
 // FaceOf is the face id router u uses for neighbor w in the simulation (distinct per neighbor).
 func FaceOf(w int) uint64 { return uint64(w + 1) }
 
-// Ping makes sure u has a live neighbor state for w on the given face (what advertSyncOnInterest
-// does on a Sync Interest from w). Returns whether the face changed.
-func (s *Sim) Ping(u, w int, face uint64, active bool) (*table.NeighborState, bool) {
-	nu, nw := s.Nodes[u], s.Nodes[w]
-	nt := nu.R.VerifNeighbors()
-	ns := nt.Get(nw.Name)
-	if ns == nil {
-		ns = nt.Add(nw.Name)
+// SyncInterest delivers an Advertisement Sync Interest of router wName, arriving on `face`, to the
+// REAL advertSyncOnInterest of router u (neighbor creation, RecvPing, face change -> fibUpdate).
+func (s *Sim) SyncInterest(u int, wName enc.Name, face uint64, active bool, seq uint64) {
+	nd := s.Nodes[u]
+	sv := &svs.StateVectorAppParam{StateVector: &svs.StateVector{
+		Entries: []*svs.StateVectorEntry{{NodeId: wName, SeqNo: seq}}}}
+	prefix := nd.Cfg.AdvertisementSyncPassivePrefix()
+	if active {
+		prefix = nd.Cfg.AdvertisementSyncActivePrefix()
 	}
-	_, dirty := ns.RecvPing(face, active)
-	return ns, dirty
+	name := append(prefix.Clone(), enc.NewVersionComponent(2))
+	sp := spec.Spec{}
+	ei, err := sp.MakeInterest(name, &ndn.InterestConfig{MustBeFresh: true,
+		Lifetime: utils.IdPtr(time.Millisecond), HopLimit: utils.IdPtr(uint(2))}, sv.Encode(), nil)
+	if err != nil {
+		panic("harness: MakeInterest: " + err.Error())
+	}
+	interest, _, err := sp.ReadInterest(enc.NewWireReader(ei.Wire))
+	if err != nil {
+		panic("harness: ReadInterest: " + err.Error())
+	}
+	f := face
+	nd.R.VerifAdvertSyncOnInterest(ndn.InterestHandlerArgs{Interest: interest, IncomingFaceId: &f}, active)
+	s.Settle()
+	nd.Eng.TakePending() // the advertisement fetch this may have started is answered by the harness itself
+}
+
+// Ping: a sync Interest of w reaches u on the given face; returns u's neighbor state for w.
+func (s *Sim) Ping(u, w int, face uint64, active bool) *table.NeighborState {
+	s.SyncInterest(u, s.Nodes[w].Name, face, active, 1)
+	return s.Nodes[u].R.VerifNeighbors().Get(s.Nodes[w].Name)
 }
 
 // Fetch: u obtains w's current advertisement (encoded and parsed as on the wire) and processes it.
 func (s *Sim) Fetch(u, w int) {
-	ns, _ := s.Ping(u, w, FaceOf(w), true)
+	ns := s.Ping(u, w, FaceOf(w), true)
 	s.FetchNs(u, w, ns)
 }
 
